@@ -186,6 +186,7 @@ def to_float(n, env, memo=None):
         elif op == 'and': r = bool(memo[a[0]]) and bool(memo[a[1]])
         elif op == 'or': r = bool(memo[a[0]]) or bool(memo[a[1]])
         elif op == 'true': r = True
+        elif op == 'imod': r = int(memo[a[0]]) % a[1]
         elif op == 'uf': r = UF_IMPL[a[0]](*[memo[q] for q in a[1:]])
         elif op == 'even': r = int(memo[a[0]]) % 2 == 0
         elif op == 'ite': r = memo[a[1]] if memo[a[0]] else memo[a[2]]
@@ -250,6 +251,7 @@ def to_z3(n, zenv, memo, side, exact_consts=False):
         elif op == 'and': r = z3.And(memo[a[0]], memo[a[1]])
         elif op == 'or': r = z3.Or(memo[a[0]], memo[a[1]])
         elif op == 'true': r = z3.BoolVal(True)
+        elif op == 'imod': r = z3.ToReal(z3.ToInt(memo[a[0]]) % a[1]) if not z3.is_int(memo[a[0]]) else memo[a[0]] % a[1]
         elif op == 'even': r = memo[a[0]] % 2 == 0
         elif op == 'ite': r = z3.If(memo[a[0]], memo[a[1]], memo[a[2]])
         elif op == 'uf':
